@@ -76,6 +76,12 @@ func (a *app) OfferSnapshot(req abci.RequestOfferSnapshot) abci.ResponseOfferSna
 	if s == nil {
 		s = &abci.Snapshot{}
 	}
+	if n == 150 {
+		select {
+		case a.w.cutCh <- "offer-loop": // the syncer keeps offering: enough seen
+		default:
+		}
+	}
 	a.w.log.add(Ev{K: "offer-call", P: -1, C: n, H: s.Height, F: s.Format, NCh: s.Chunks, Hash: hexs(s.Hash), Meta: hexs(s.Metadata), B: hexs(req.AppHash)})
 	a.w.sched.hold("offer", n, holdCtx{h: s.Height, f: s.Format, n: s.Chunks, sender: -1})
 	verdict := "REJECT"
